@@ -920,7 +920,7 @@ func r4C19(c *Ctx) {
 
 func r4C20(c *Ctx) {
 	p := c.Prog
-	c.Rule("R20.5", "early returns on an absent optional block skip only writes that depend on that block", 2)
+	c.Rule("R20.5", "early returns on an absent optional block skip only writes that depend on that block", 0)
 	for _, name := range []string{"api/v1alpha1.Rollout.ConvertTo", "api/v1alpha1.Rollout.ConvertFrom", "api/v1alpha1.BatchRelease.ConvertTo", "api/v1alpha1.BatchRelease.ConvertFrom"} {
 		fn := p.Func(name)
 		if fn == nil {
